@@ -27,6 +27,9 @@ def template_hashes(rep):
 def run(rep, kf, tier, seed):
     import contracts.templates_a as ta
     ta.union_fallthrough_obligation(rep, "C02")
+    # the order in which a union's members are tried is the document's (first match wins in the generated decoder)
+    import contracts.dispatch as _cd
+    engine_b.discharge(rep, kf, [_cd.inner_forwarding_contract("UnionProperty")], "C02", tier, seed)
     tasks = []
     pkgs = []
     for version in ("3.1.0", "3.0.3"):
